@@ -215,12 +215,27 @@ def ret_variants(view):
     expanded to their definitions, so the block is where the value is chosen)."""
     out = []
 
+    def subst(e, target, repl):
+        if e == target:
+            return repl
+        if e[0] == 'agg':
+            return (e[0], e[1], e[2], tuple((f, subst(x, target, repl)) for f, x in e[3]))
+        return e
+
     def expand(i, e, depth=0):
         if e[0] == 'phi' and depth < 4:
             for bb, de in view.phi_defs(e[1]):
                 expand(bb, de, depth + 1)
-        else:
-            out.append((i, e))
+            return
+        if e[0] == 'agg' and depth < 4:
+            inner = [x for x in subexprs(e) if x[0] == 'phi']
+            if inner:
+                defs = view.phi_defs(inner[0][1])
+                if defs:
+                    for bb, de in defs:
+                        expand(bb, subst(e, inner[0], de), depth + 1)
+                    return
+        out.append((i, e))
     for (i, j, s) in view.stmts():
         if s['k'] == 'assign' and s['lhs']['l'] == 0 and not s['lhs']['p']:
             expand(i, view.rvalue_expr(s['rv'], i))
